@@ -196,6 +196,8 @@ func ckBuild(backend string, m [][2]bstr, v uint64) (dbapi.NodeDB, node.Root, er
 	return ndb, root, nil
 }
 
+var ckCreates atomic.Int64
+
 // ckCreate creates a checkpoint of root in a fresh directory and returns the metadata and the chunk bytes.
 func ckCreate(ndb dbapi.NodeDB, root node.Root, size uint64, threads uint16) (*ckCP, error) {
 	dir, err := os.MkdirTemp(ckTmpRoot, "ckpt-")
@@ -206,6 +208,19 @@ func ckCreate(ndb dbapi.NodeDB, root node.Root, size uint64, threads uint16) (*c
 	fc, err := checkpoint.NewFileCreator(dir, ndb)
 	if err != nil {
 		return nil, err
+	}
+	if ckCreates.Add(1)%2 == 0 {
+		// every second checkpoint is created in a directory that holds the leftovers of an earlier creation that was killed before
+		// it wrote its metadata: the same root chunked with other parameters (larger chunks), metadata file removed
+		var stale error
+		if perr := guard(func() { _, stale = fc.CreateCheckpoint(bgCtx, root, size*3+17, 0) }); perr == nil && stale == nil {
+			_ = filepath.Walk(dir, func(path string, info os.FileInfo, werr error) error {
+				if werr == nil && !info.IsDir() && info.Name() == "meta" {
+					_ = os.Remove(path)
+				}
+				return nil
+			})
+		}
 	}
 	var meta *checkpoint.Metadata
 	if perr := guard(func() { meta, err = fc.CreateCheckpoint(bgCtx, root, size, threads) }); perr != nil {
